@@ -55,6 +55,7 @@ func parseHeaders(decodeFn qpack.DecodeFunc, isRequest bool, sizeLimit int, head
 	hdr := header{Headers: make(http.Header)}
 	var readFirstRegularHeader, readContentLength bool
 	var contentLengthStr string
+	var seenPseudoHeaders []string
 	for {
 		h, err := decodeFn()
 		if err != nil {
@@ -82,25 +83,21 @@ func parseHeaders(decodeFn qpack.DecodeFunc, isRequest bool, sizeLimit int, head
 				return header{}, fmt.Errorf("received pseudo header %s after a regular header field", h.Name)
 			}
 			var isResponsePseudoHeader bool  // pseudo headers are either valid for requests or for responses
-			var isDuplicatePseudoHeader bool // pseudo headers are allowed to appear exactly once
+			// pseudo headers are allowed to appear exactly once, whatever their value
+			isDuplicatePseudoHeader := slices.Contains(seenPseudoHeaders, h.Name)
+			seenPseudoHeaders = append(seenPseudoHeaders, h.Name)
 			switch h.Name {
 			case ":path":
-				isDuplicatePseudoHeader = hdr.Path != ""
 				hdr.Path = h.Value
 			case ":method":
-				isDuplicatePseudoHeader = hdr.Method != ""
 				hdr.Method = h.Value
 			case ":authority":
-				isDuplicatePseudoHeader = hdr.Authority != ""
 				hdr.Authority = h.Value
 			case ":protocol":
-				isDuplicatePseudoHeader = hdr.Protocol != ""
 				hdr.Protocol = h.Value
 			case ":scheme":
-				isDuplicatePseudoHeader = hdr.Scheme != ""
 				hdr.Scheme = h.Value
 			case ":status":
-				isDuplicatePseudoHeader = hdr.Status != ""
 				hdr.Status = h.Value
 				isResponsePseudoHeader = true
 			default:
@@ -136,7 +133,7 @@ func parseHeaders(decodeFn qpack.DecodeFunc, isRequest bool, sizeLimit int, head
 		}
 	}
 	hdr.ContentLength = -1
-	if len(contentLengthStr) > 0 {
+	if readContentLength {
 		// use ParseUint instead of ParseInt, so that parsing fails on negative values
 		cl, err := strconv.ParseUint(contentLengthStr, 10, 63)
 		if err != nil {
